@@ -53,7 +53,7 @@ func VH_C13() {
 	L := []Level{ErrorLevel, WarnLevel, InfoLevel, DebugLevel, OffLevel, AlwaysLevel}[vChoose(6)]
 	lg.SetLevel(L)
 	dbg := L == DebugLevel
-	sevs := []Level{ErrorLevel, WarnLevel, InfoLevel, DebugLevel, FailLevel, OKLevel}
+	sevs := []Level{ErrorLevel, WarnLevel, InfoLevel, DebugLevel, FailLevel, OKLevel, AlwaysLevel}
 	selected := func(r Level) []int {
 		if r == lvlWriterFor {
 			return leveled
@@ -72,7 +72,12 @@ func VH_C13() {
 		n0 := len(rec.evs)
 		attempts = 0
 		attemptLimit = len(selected(r)) + len(selected(WarnLevel))
-		lg.Logit(vCtx, r, "m", "k", 1) // must return normally: a panic is reported as a violation
+		msg := "m"
+		if r == AlwaysLevel {
+			// Print-severity records: also the blank ones (rendered as one empty line, one Write)
+			msg = []string{"m", "", "\n\n"}[vChoose(3)]
+		}
+		lg.Logit(vCtx, r, msg, "k", 1) // must return normally: a panic is reported as a violation
 		attemptLimit = 1 << 30
 		evs := rec.evs[n0:]
 		admitted := vSpecEnabled(L, r, dbg, nil)
@@ -91,7 +96,11 @@ func VH_C13() {
 			}
 		}
 		p := evs[0].P
-		vAssert(len(p) > 0 && p[len(p)-1] == '\n' && strings.Contains(p, `msg="m"`), "C13: the payload is the complete record")
+		if msg == "m" {
+			vAssert(len(p) > 0 && p[len(p)-1] == '\n' && strings.Contains(p, `msg="m"`), "C13: the payload is the complete record")
+		} else {
+			vAssert(p == "\n", "C13: a blank Print-severity record is one newline")
+		}
 		rest := evs[len(S):]
 		warnAdmitted := vSpecEnabled(L, WarnLevel, dbg, nil)
 		if anyFailed && r != WarnLevel && warnAdmitted {
